@@ -48,6 +48,53 @@ def multicommAtomicB (log : Log) : Bool :=
       !(sendAt log k == some c) || !(allBetween i k fun m => !isRetOf c (evAt log m)) || c' == c
     | _, _ => true
 
+/-! ### … nor is any single exchange: command, reply (and what `getFullReply` reads in addition) belong together -/
+
+/-- the caller whose send — of a command or of an identification request — is at position i -/
+def sendLikeAt (log : Log) (i : Nat) : Option Nat :=
+  match evAt log i with
+  | some (.send c _ _ _) => some c
+  | some (.isend c _ _ _) => some c
+  | _ => none
+
+/-- the caller who touches the connection at position m (send, flush, recv) -/
+def trafficAt (log : Log) (m : Nat) : Option Nat :=
+  match evAt log m with
+  | some (.send c _ _ _) => some c
+  | some (.isend c _ _ _) => some c
+  | some (.flush c) => some c
+  | some (.recv c _) => some c
+  | _ => none
+
+/-- position of the send of `c` whose reply a `recv` of `c` at k is reading: the last send of `c` before k, provided `c`
+has neither returned nor started to drain the connection for its next command (`flush`) in between -/
+def ownSendBefore (log : Log) (c k : Nat) : Option Nat :=
+  match ((List.range k).reverse.find? (fun m => (sendLikeAt log m == some c) || isRetOf c (evAt log m)
+      || (evAt log m == some (.flush c)))) with
+  | some m => if sendLikeAt log m == some c then some m else none
+  | none => none
+
+/-- An exchange is never interleaved with other traffic: between the send of a command by caller `c` and every `recv`
+by which `c` reads its reply (including what `getFullReply` reads in addition for a reply of variable length) no OTHER
+caller touches the connection. -/
+def exchangeAtomicB (log : Log) : Bool :=
+  allBelow log.length fun k =>
+    match evAt log k with
+    | some (.recv c _) =>
+      (match ownSendBefore log c k with
+       | some i => allBetween i k fun m => match trafficAt log m with
+         | some c' => c' == c
+         | none => true
+       | none => true)
+    | _ => true
+
+def ExchangeAtomic (log : Log) : Prop := exchangeAtomicB log = true
+
+/-- the same clause with quantifiers -/
+def ExchangeAtomicAll (log : Log) : Prop :=
+  ∀ k c out i, evAt log k = some (.recv c out) → ownSendBefore log c k = some i →
+    ∀ m, i < m → m < k → ∀ c', trafficAt log m = some c' → c' = c
+
 /-! ### call spans -/
 
 /-- position of the return of the call of `c` that starts at `a` (`log.length` if it never returns) -/
@@ -114,6 +161,17 @@ def replyFrom (bytesMode : Bool) (eol : Bytes) (r : Req) (reply fresh : Bytes) :
   if bytesMode then reply.length == r.rlen && reply.isPrefixOf fresh
   else (reply ++ eol).isPrefixOf fresh
 
+/-- byte devices with replies of variable length: the number of further bytes `getFullReply` asked for (`readBytes`)
+in the window (i, e) of a request of caller `c` -/
+def moreIn (log : Log) (c i e : Nat) : Nat :=
+  (((List.range e).filter (fun m => decide (i < m))).map (fun m =>
+    match evAt log m with
+    | some (.more c' n) => if c' == c then n else 0
+    | _ => 0)).sum
+
+/-- the request as it is answered in the end: the reply is `extra` bytes longer than the header first asked for -/
+def withExtra (r : Req) (extra : Nat) : Req := { r with rlen := r.rlen + extra }
+
 /-- the requests of a call that expect a reply, each with the position of its send and the end of its window
 (the next send of the call, or the return) -/
 def windows (reqs : List Req) (ss : List Nat) (b : Nat) : List (Req × Nat × Nat) :=
@@ -132,7 +190,8 @@ def staleDiscardedB (bytesMode : Bool) (eol : Bytes) (log : Log) : Bool :=
         ws.length == replies.length &&
         (ws.zip replies).all fun x =>
           match x with
-          | ((r, i, e), reply) => replyFrom bytesMode eol r reply (arrivedIn log (connOfSend log i) none i e)
+          | ((r, i, e), reply) =>
+            replyFrom bytesMode eol (withExtra r (moreIn log c i e)) reply (arrivedIn log (connOfSend log i) none i e)
       | _ => true
     | _ => true
 
@@ -151,7 +210,8 @@ def replyPairingB (bytesMode : Bool) (eol : Bytes) (log : Log) : Bool :=
           match x with
           | ((r, i, e), reply) =>
             !(onlyAnswers log (connOfSend log i) (numOfSend log i) i e) ||
-            replyFrom bytesMode eol r reply (arrivedIn log (connOfSend log i) (some (numOfSend log i)) i e)
+            replyFrom bytesMode eol (withExtra r (moreIn log c i e)) reply
+              (arrivedIn log (connOfSend log i) (some (numOfSend log i)) i e)
       | _ => true
     | _ => true
 
@@ -179,16 +239,42 @@ def dataStep (log : Log) (c : Nat) (acc m : Nat) : Nat :=
 def lastDataTime (log : Log) (c p u : Nat) : Nat :=
   ((List.range u).filter (fun m => decide (p < m))).foldl (dataStep log c) 0
 
+/-- when the read that is under way at the end of the window (i, e) of a request of `c` began: the time of the send, or
+of the last `readBytes` by which `getFullReply` asked for more (each read has the communicator's time-out) -/
+def readStart (log : Log) (c i e : Nat) : Nat :=
+  timeAt log (((List.range e).reverse.find? (fun m => decide (i < m) &&
+    (match evAt log m with
+     | some (.more c' _) => c' == c
+     | _ => false))).getD i)
+
 /-- all requests of a call that were sent, each with the position of its send and the end of its window -/
 def allWindows (reqs : List Req) (ss : List Nat) (b : Nat) : List (Req × Nat × Nat) :=
   ((reqs.zip ss).zip (ss.drop 1 ++ [b])).map (fun x => (x.1.1, x.1.2, x.2))
 
+/-- the acting caller of the event at position m -/
+def whoAtE (log : Log) (m : Nat) : Option Nat := (evAt log m).bind (·.who)
+
+/-- position of the last event of caller `c` before b satisfying `p` (`dflt` if there is none) -/
+def lastOf (log : Log) (c b dflt : Nat) (p : Ev → Bool) : Nat :=
+  ((List.range b).reverse.find? (fun m => (whoAtE log m == some c) && ((evAt log m).map p).getD false)).getD dflt
+
+def isAcq : Ev → Bool
+  | .acq _ => true
+  | _ => false
+
+/-- the end of the exchange of an identification request sent by `c` at i: `c` gives the lock back (or returns) -/
+def identWindowEnd (log : Log) (c i : Nat) : Nat :=
+  ((List.range log.length).find? (fun m => decide (i < m) &&
+    ((evAt log m == some (.rel c)) || isRetOf c (evAt log m)))).getD log.length
+
 /-- every call returns (no hang), with a result or a communication error (nothing else).  Once it has the lock it
 sends after `wait_before`; and the window of a request ends (next send / return) no later than one `recv` period
 after its time-out — or after the last byte the device sent in that window, if the device kept talking —
-plus the request's delay and the next `wait_before`.  (`slack`: clock reads in between.) -/
+plus the request's delay and the next `wait_before`.  A call that sends nothing returns right after its last
+action.  The same bound holds for every request of an identification (`checkHWIdent` on connect).
+(`slack`: clock reads in between.) -/
 def failsWithinTimeoutB (cfg : Cfg) (log : Log) : Bool :=
-  allBelow log.length fun a =>
+  (allBelow log.length fun a =>
     match evAt log a with
     | some (.call c kind reqs) =>
       let b := spanEnd log c a
@@ -198,30 +284,59 @@ def failsWithinTimeoutB (cfg : Cfg) (log : Log) : Bool :=
        | _ => true) &&
       (kind == .poll ||
         (let ss := sendsIn log c a b
-         let f := firstAcq log c a b
-         decide (timeAt log (ss.headD b) ≤ timeAt log f + cfg.waitBefore + cfg.slack) &&
+         (match ss with
+          | [] => decide (timeAt log b ≤ timeAt log (lastOf log c b a (fun _ => true)) + cfg.waitBefore + cfg.slack)
+          | p :: _ => decide (timeAt log p ≤ timeAt log (lastOf log c p a isAcq) + cfg.waitBefore + cfg.slack)) &&
          (allWindows reqs ss b).all fun w =>
            match w with
            | (r, i, e) =>
-             decide (timeAt log e ≤ max (timeAt log i + (if r.expect then cfg.timeout else 0)) (lastArrival log i e)
+             decide (timeAt log e ≤ max (readStart log c i e + (if r.expect then cfg.timeout else 0)) (lastArrival log i e)
                                     + cfg.gran + r.delay + cfg.waitBefore + cfg.slack)))
-    | _ => true
+    | _ => true) &&
+  (allBelow log.length fun i =>
+    match evAt log i with
+    | some (.isend c _ _ _) =>
+      let e := identWindowEnd log c i
+      decide (e < log.length) &&
+      decide (timeAt log e ≤ max (timeAt log i + cfg.timeout) (lastArrival log i e) + cfg.gran + cfg.waitBefore + cfg.slack)
+    | _ => true)
 
 def FailsWithinTimeout (cfg : Cfg) (log : Log) : Prop := failsWithinTimeoutB cfg log = true
 
 /-! ### the connection state becomes visible -/
 
 /-- a detected disconnect (a `recv` that reports the closed connection) is followed by the update
-`is_connected = false` before the detecting call returns -/
+`is_connected = false` before the detecting call returns — unless ANOTHER caller drops the connection first
+(closeConnection after a failed identification runs without the communicator lock): then that caller has to announce it
+(`closedVisibleB`) -/
 def stateVisibleB (log : Log) : Bool :=
   allBelow log.length fun i =>
     match evAt log i with
     | some (.recv c .closed) =>
       anyBetween i log.length fun j =>
-        (evAt log j == some (.isconn c false)) && allBetween i j fun m => !isRetOf c (evAt log m)
+        (match evAt log j with
+         | some (.isconn _ false) => true
+         | some (.hclose c') => !(c' == c)
+         | _ => false) && allBetween i j fun m => !isRetOf c (evAt log m)
     | _ => true
 
 def StateVisible (log : Log) : Prop := stateVisibleB log = true
+
+/-- the published state just before position p: the value of the last update of `is_connected` (false initially) -/
+def stateAt (log : Log) (p : Nat) : Bool :=
+  (List.range p).foldl (fun acc m => match evAt log m with
+    | some (.isconn _ v) => v
+    | _ => acc) false
+
+/-- when the communicator has dropped its connection (`hclose` by caller `c`), the published state is — or becomes —
+`false` before the closing call returns: a closed connection never stays published as connected -/
+def closedVisibleB (log : Log) : Bool :=
+  allBelow log.length fun i =>
+    match evAt log i with
+    | some (.hclose c) => anyBetween i (spanEnd log c i + 1) fun p => !stateAt log p
+    | _ => true
+
+def ClosedVisible (log : Log) : Prop := closedVisibleB log = true
 
 /-- the state stays true to the connection: after the communicator has closed the connection, `is_connected`
 is not set to true again before a connect has succeeded -/
@@ -317,15 +432,21 @@ def nextConnectBy (log : Log) (c i : Nat) : Nat :=
      | some (.connect c' _ _) => c' == c
      | _ => false))).getD log.length
 
+/-- the identification made on connect (`checkHWIdent`) failed for caller `c` at a position in (i, b): the device
+answered, but it is not the expected one — the connection is dropped again, this was no successful reconnect -/
+def identFailedIn (log : Log) (c i b : Nat) : Bool :=
+  anyBetween i b fun m => evAt log m == some (.idend c false)
+
 /-- for every successful connect that is not the first one: between it and the return of the call that made it (or
 the next attempt of that call, if it has to reconnect once more), each callback registered at that moment runs
-exactly once -/
+exactly once.  (With an identification configured the reconnect is successful when `checkHWIdent` has passed.) -/
 def callbacksOnceB (cbs : List Nat) (log : Log) : Bool :=
   allBelow log.length fun i =>
     match okConnectBy log i with
     | some c =>
       let b := min (spanEnd log c i) (nextConnectBy log c i)
       !((List.range i).any fun i0 => (okConnectBy log i0).isSome) || !(decide (b < log.length)) ||
+      identFailedIn log c i b ||
       (registeredAt cbs log i).all fun n => cbCount log c n i b == 1
     | none => true
 
